@@ -223,10 +223,14 @@ def run_shard(spec):
             variants.append(hv[k % len(hv)])
             if spec.get("full", 0) > 1:
                 variants += [v for v in hv if v is not variants[-1]]
+            on_disk = full_src
             for with_name, src in variants:
-                if src != full_src:
+                if src != on_disk:
+                    # (compare with what the file holds now: a variant that leaves this text unchanged must not be
+                    # judged against the previous variant's file)
                     with open(os.path.join(d, name), "w", encoding="utf-8") as f:
                         f.write(src)
+                    on_disk = src
                     ref = child_obs(cliobs.run_cli([name], cwd=d), name)
                     if ref is None:
                         continue
